@@ -97,7 +97,7 @@ pub struct SimNet {
     pub bg_loss_every: u64,
     pub bg_delay_every: u64,
     pub bg_until: i32,
-    bg_count: u64,
+    bg_count: HashMap<(Addr, Addr), u64>,
     /// when on: (to, from) -> newest input frame contained in any Input packet handed to `to`
     pub track_frames: bool,
     pub delivered_frames: HashMap<(Addr, Addr), i32>,
@@ -130,7 +130,7 @@ impl SimNet {
             bg_loss_every: 0,
             bg_delay_every: 0,
             bg_until: 0,
-            bg_count: 0,
+            bg_count: HashMap::new(),
             track_frames: false,
             delivered_frames: HashMap::new(),
             recv_log: Vec::new(),
@@ -196,10 +196,14 @@ impl SimNet {
             }
         }
         if fate.is_none() && kind == crate::wire::K_INPUT && rel >= 0 && rel < self.bg_until {
-            self.bg_count += 1;
-            if self.bg_loss_every > 0 && self.bg_count % self.bg_loss_every == 0 {
+            // counted per directed link, so that attaching a spectator (or a further peer) does
+            // not shift which packets of the other links are hit
+            let c = self.bg_count.entry((from, to)).or_insert(u64::from(from) * 3 + u64::from(to));
+            *c += 1;
+            let c = *c;
+            if self.bg_loss_every > 0 && c % self.bg_loss_every == 0 {
                 fate = Some(Fate::Drop);
-            } else if self.bg_delay_every > 0 && self.bg_count % self.bg_delay_every == 0 {
+            } else if self.bg_delay_every > 0 && c % self.bg_delay_every == 0 {
                 fate = Some(Fate::Delay(2));
             }
         }
